@@ -42,6 +42,11 @@ class RefError(Exception):
     pass
 
 
+class Unbuildable(RefError):
+    """No Python value of this type can be handed to the API on this tree (a
+    set element / mapping key that the API's own value class cannot hash)."""
+
+
 class UnknownType(RefError):
     pass
 
@@ -294,10 +299,11 @@ def float_to_bits(x):
     return "%016x" % int.from_bytes(struct.pack("<d", x), "little")
 
 
-def to_python(tree, jv, gtirb, lookup, prefer_uuid=False):
+def to_python(tree, jv, gtirb, lookup, prefer_uuid=False, in_key=False):
     """Build the Python value gtirb.encode is given.  `lookup(uuid)` returns
     the attached node or None; attached nodes are passed as node objects unless
-    prefer_uuid."""
+    prefer_uuid.  Inside a set element / mapping key (in_key) containers take
+    their hashable forms: sequence -> tuple, set -> frozenset."""
     import uuid as _uuid
 
     name, subs = tree
@@ -313,21 +319,28 @@ def to_python(tree, jv, gtirb, lookup, prefer_uuid=False):
         u = _uuid.UUID(hex=jv["o"])
         node = lookup(u)
         return gtirb.Offset(u if node is None or prefer_uuid else node, jv["d"])
-    if name == "sequence":
-        return [to_python(subs[0], x, gtirb, lookup, prefer_uuid) for x in jv]
-    if name == "set":
-        return {to_python(subs[0], x, gtirb, lookup, prefer_uuid) for x in jv}
-    if name == "mapping":
-        return {
-            to_python(subs[0], k, gtirb, lookup, prefer_uuid): to_python(
-                subs[1], v, gtirb, lookup, prefer_uuid
-            )
-            for k, v in jv
-        }
+    try:
+        if name == "sequence":
+            out = [to_python(subs[0], x, gtirb, lookup, prefer_uuid, in_key) for x in jv]
+            return tuple(out) if in_key else out
+        if name == "set":
+            out = [to_python(subs[0], x, gtirb, lookup, prefer_uuid, True) for x in jv]
+            return frozenset(out) if in_key else set(out)
+        if name == "mapping":
+            return {
+                to_python(subs[0], k, gtirb, lookup, prefer_uuid, True): to_python(
+                    subs[1], v, gtirb, lookup, prefer_uuid, in_key
+                )
+                for k, v in jv
+            }
+    except TypeError as e:
+        if "unhashable" in str(e):
+            raise Unbuildable(str(e))
+        raise
     if name == "tuple":
-        return tuple(to_python(s, x, gtirb, lookup, prefer_uuid) for s, x in zip(subs, jv))
+        return tuple(to_python(s, x, gtirb, lookup, prefer_uuid, in_key) for s, x in zip(subs, jv))
     if name == "variant":
-        return gtirb.Variant(jv["i"], to_python(subs[jv["i"]], jv["v"], gtirb, lookup, prefer_uuid))
+        return gtirb.Variant(jv["i"], to_python(subs[jv["i"]], jv["v"], gtirb, lookup, prefer_uuid, in_key))
     raise UnknownType(name)
 
 
@@ -355,9 +368,10 @@ def from_python(tree, pv):
     raise UnknownType(name)
 
 
-def expected_python(tree, jv, gtirb, lookup):
+def expected_python(tree, jv, gtirb, lookup, in_key=False):
     """What gtirb.decode must return for the encoding of jv: float32 rounded,
-    attached UUIDs as node objects, others as uuid.UUID."""
+    attached UUIDs as node objects, others as uuid.UUID; inside a set element /
+    mapping key sequences are tuples and sets frozensets."""
     import uuid as _uuid
 
     name, subs = tree
@@ -376,23 +390,30 @@ def expected_python(tree, jv, gtirb, lookup):
         u = _uuid.UUID(hex=jv["o"])
         node = lookup(u)
         return gtirb.Offset(u if node is None else node, jv["d"])
-    if name == "sequence":
-        return [expected_python(subs[0], x, gtirb, lookup) for x in jv]
-    if name == "set":
-        return {expected_python(subs[0], x, gtirb, lookup) for x in jv}
-    if name == "mapping":
-        return {
-            expected_python(subs[0], k, gtirb, lookup): expected_python(subs[1], v, gtirb, lookup)
-            for k, v in jv
-        }
+    try:
+        if name == "sequence":
+            out = [expected_python(subs[0], x, gtirb, lookup, in_key) for x in jv]
+            return tuple(out) if in_key else out
+        if name == "set":
+            out = [expected_python(subs[0], x, gtirb, lookup, True) for x in jv]
+            return frozenset(out) if in_key else set(out)
+        if name == "mapping":
+            return {
+                expected_python(subs[0], k, gtirb, lookup, True): expected_python(subs[1], v, gtirb, lookup, in_key)
+                for k, v in jv
+            }
+    except TypeError as e:
+        if "unhashable" in str(e):
+            raise Unbuildable(str(e))
+        raise
     if name == "tuple":
-        return tuple(expected_python(s, x, gtirb, lookup) for s, x in zip(subs, jv))
+        return tuple(expected_python(s, x, gtirb, lookup, in_key) for s, x in zip(subs, jv))
     if name == "variant":
-        return gtirb.Variant(jv["i"], expected_python(subs[jv["i"]], jv["v"], gtirb, lookup))
+        return gtirb.Variant(jv["i"], expected_python(subs[jv["i"]], jv["v"], gtirb, lookup, in_key))
     raise UnknownType(name)
 
 
-def same(tree, want, got, gtirb, path="$"):
+def same(tree, want, got, gtirb, path="$", in_key=False):
     """Structural equality of two decoded Python values of type `tree`:
     exact container types, ints exact (bool is not int), floats bit for bit
     (any NaN equals any NaN), nodes by identity.  Returns None or a message."""
@@ -437,20 +458,20 @@ def same(tree, want, got, gtirb, path="$"):
             return "%s.displacement: %r != %r" % (path, got.displacement, want.displacement)
         return None
     if name == "sequence":
-        if type(got) is not list or len(got) != len(want):
+        if type(got) is not (tuple if in_key else list) or len(got) != len(want):
             return "%s: %r != %r" % (path, got, want)
         for i, (w, g) in enumerate(zip(want, got)):
-            msg = same(subs[0], w, g, gtirb, "%s[%d]" % (path, i))
+            msg = same(subs[0], w, g, gtirb, "%s[%d]" % (path, i), in_key)
             if msg:
                 return msg
         return None
     if name == "set":
-        if type(got) is not set or len(got) != len(want):
+        if type(got) is not (frozenset if in_key else set) or len(got) != len(want):
             return "%s: %r != %r" % (path, got, want)
         rest = list(got)
         for w in want:
             for i, g in enumerate(rest):
-                if same(subs[0], w, g, gtirb) is None:
+                if same(subs[0], w, g, gtirb, "$", True) is None:
                     del rest[i]
                     break
             else:
@@ -462,8 +483,8 @@ def same(tree, want, got, gtirb, path="$"):
         rest = list(got.items())
         for wk, wv in want.items():
             for i, (gk, gv) in enumerate(rest):
-                if same(subs[0], wk, gk, gtirb) is None:
-                    msg = same(subs[1], wv, gv, gtirb, "%s[%r]" % (path, wk))
+                if same(subs[0], wk, gk, gtirb, "$", True) is None:
+                    msg = same(subs[1], wv, gv, gtirb, "%s[%r]" % (path, wk), in_key)
                     if msg:
                         return msg
                     del rest[i]
@@ -475,12 +496,12 @@ def same(tree, want, got, gtirb, path="$"):
         if type(got) is not tuple or len(got) != len(want):
             return "%s: %r != %r" % (path, got, want)
         for i, (s, w, g) in enumerate(zip(subs, want, got)):
-            msg = same(s, w, g, gtirb, "%s.%d" % (path, i))
+            msg = same(s, w, g, gtirb, "%s.%d" % (path, i), in_key)
             if msg:
                 return msg
         return None
     if name == "variant":
         if type(got) is not gtirb.Variant or got.index != want.index or type(got.index) is not int:
             return "%s: %r != %r" % (path, got, want)
-        return same(subs[want.index], want.val, got.val, gtirb, path + ".val")
+        return same(subs[want.index], want.val, got.val, gtirb, path + ".val", in_key)
     raise UnknownType(name)
